@@ -326,10 +326,11 @@ func valueToColor(value, s, v float64) openrgb.Color {
 }
 
 // allKeys returns the keys of a mapping, whichever handler of the device reports them
-func allKeys(m config.KeyMapping) map[evdev.EvCode]config.Key {
+// (sections for sub-handlers this device does not have say nothing about its keys)
+func (d *Device) allKeys(m config.KeyMapping) map[evdev.EvCode]config.Key {
 	keys := make(map[evdev.EvCode]config.Key)
-	for _, sub := range m.Midi {
-		for code, key := range sub {
+	for _, handler := range d.InputDevice.Handlers {
+		for code, key := range m.Midi[handler.Name] {
 			keys[code] = key
 		}
 	}
@@ -447,14 +448,12 @@ func (d *Device) handleOpenrgb(ctx context.Context, wg *sync.WaitGroup) {
 	for _, m := range d.config.KeyMappings {
 		var midiKeyMapping = make(map[byte][]evdev.EvCode)
 		// keys of every handler of the keyboard (media keys arrive on "Consumer Control")
-		for _, keys := range m.Midi {
-			for code, key := range keys {
-				_, ok := midiKeyMapping[key.Note]
-				if !ok {
-					midiKeyMapping[key.Note] = []evdev.EvCode{code}
-				} else {
-					midiKeyMapping[key.Note] = append(midiKeyMapping[key.Note], code)
-				}
+		for code, key := range d.allKeys(m) {
+			_, ok := midiKeyMapping[key.Note]
+			if !ok {
+				midiKeyMapping[key.Note] = []evdev.EvCode{code}
+			} else {
+				midiKeyMapping[key.Note] = append(midiKeyMapping[key.Note], code)
 			}
 		}
 		MidiKeyMappings = append(MidiKeyMappings, midiKeyMapping)
@@ -604,7 +603,7 @@ root:
 		var hsvOfsset float64
 
 		// keyboard mapping
-		for code, key := range allKeys(d.config.KeyMappings[d.mapping]) {
+		for code, key := range d.allKeys(d.config.KeyMappings[d.mapping]) {
 			id, ok := indexMap[code]
 			if !ok {
 				continue
